@@ -321,6 +321,14 @@ class DescriptorTransaction(_TransactionBase):
         """
         proc = TransactionResult()
         if self.descriptor_updates:
+            # check before the first change of the mdib: every created descriptor needs a parent
+            for tr_item in self.descriptor_updates.values():
+                if tr_item.old is None and tr_item.new is not None and tr_item.new.parent_handle is not None:
+                    parent_handle = tr_item.new.parent_handle
+                    if parent_handle not in self.descriptor_updates \
+                            and parent_handle not in self._mdib.descriptions.handle:
+                        msg = f'Cannot create descriptor {tr_item.new.Handle}, parent {parent_handle} does not exist!'
+                        raise ValueError(msg)
             self._mdib.mdib_version = self.new_mdib_version
             # need to know all to be deleted and to be created descriptors
             to_be_deleted_handles = [tr_item.old.Handle for tr_item in self.descriptor_updates.values()
